@@ -70,6 +70,7 @@ TRANSPARENT = [
     r"<.* as std::iter::Iterator>::rev$",
     r"<.* as std::iter::Iterator>::enumerate$",
     r"<.* as std::iter::Iterator>::peekable$",
+    r"<.* as std::iter::Iterator>::(filter|skip|take|take_while|skip_while|step_by|fuse|inspect|by_ref)$",   # same elements
     r"std::slice::iter_mut$",
     r"std::slice::first$",
     r"std::slice::last$",
